@@ -27,6 +27,14 @@ Definition foreign_exc_remainder : list (string * string) := [
   ("kmip/services/server/crypto/engine.py", "CryptographyEngine.wrap_key");   (* CryptographicFailure(str(e)): reaches the CLIENT *)
   ("kmip/services/server/engine.py", "KmipEngine._process_batch");            (* every unexpected exception of an operation *)
   ("kmip/services/server/engine.py", "KmipEngine._process_delete_attribute"); (* except ValueError *)
+  ("kmip/services/server/engine.py", "KmipEngine._process_register");
+     (* InvalidField("The secret cannot be registered: {0}".format(e)), e : TypeError | ValueError raised under
+        ObjectFactory.convert: reaches the CLIENT.  Reviewed: on the core->pie path the exception comes from
+        kmip/pie/factory.py (literals, key format enums) or the kmip/pie/objects.py constructors/validate
+        (literals, list positions, cryptographic_length, len(value)*8, valid format list) - all of them raise
+        sites of the table that logsites_safe_partial covers, none formats the value - or from the Python
+        runtime (attribute/len errors naming types).  No third-party library is called with the value there.
+        Listed here because the handler classes are builtin (anything may raise them). *)
   ("kmip/services/server/server.py", "KmipServer.start");
   ("kmip/services/server/server.py", "KmipServer.stop");
   ("kmip/services/server/server.py", "KmipServer.stop");
